@@ -1243,8 +1243,7 @@ Proof.
     destruct (parse_fidelity fs None None Hwire (ad_no_group_start_none fs)) as (p & Hp & Hraw & Hfields & Hret).
     exists fs, p. split; [exact Ebs|]. split.
     + apply scan_ser. apply Forall_forall. intros f Hf. destruct (Hfine f Hf) as [(Ht & Hs & _) _]. split; [lia|exact Hs].
-    + split; [exact Hp|]. split; [exact Hraw|]. split; [|exact Hret].
-      rewrite Hfields, (count_soh_ser_plain fs Hplain), Nat.sub_diag. cbn [repeat]. apply app_nil_r.
+    + split; [exact Hp|]. split; [exact Hraw|]. split; [exact Hfields|exact Hret].
 Qed.
 
 Definition c10_uses_xml_data_len (ops : list c10_op) : bool := c10_has (c10_abs_run ops) SecHeader TAG_XML_DATA_LEN.
